@@ -88,6 +88,13 @@ func parseReplayOps(s string) ([]replayOp, bool) {
 		switch {
 		case f[0] == "P" && len(f) == 3:
 			ops = append(ops, replayOp{kind: 'P', topics: parseTopics(f[1]), id: parseEventID(f[2])})
+		case f[0] == "N" && len(f) == 3:
+			// N:<topics>:<k>: ONE message without an ID put k times in a row
+			k, err := strconv.ParseUint(f[2], 10, 20)
+			if err != nil {
+				return nil, false
+			}
+			ops = append(ops, replayOp{kind: 'N', topics: parseTopics(f[1]), delta: int64(k)})
 		case f[0] == "R" && len(f) == 5:
 			op := replayOp{kind: 'R', topics: parseTopics(f[1]), id: parseEventID(f[2]), failAt: -1, flushFails: f[4] == "1"}
 			if k, err := strconv.ParseUint(f[3], 10, 31); err == nil {
@@ -203,6 +210,44 @@ func showTagSet(known map[int]bool, unknown bool) string {
 	return "{" + strings.Join(parts, ",") + "}"
 }
 
+// compressRuns prints a list of Put results with every maximal run in which each result is the successor of the one
+// before it (the next decimal ID, or the same error) as first>last (the Lean driver does the same, Driver/ReplayD.lean).
+func compressRuns(rs []string) string {
+	dec := func(r string) (uint64, bool) {
+		if !strings.HasPrefix(r, "P=") || r[2:] == "~" {
+			return 0, false
+		}
+		raw := string(unhx(r[2:]))
+		v, err := strconv.ParseUint(raw, 10, 62)
+		return v, err == nil && strconv.FormatUint(v, 10) == raw
+	}
+	succ := func(a, b string) bool {
+		if a == b && !strings.HasPrefix(a, "P=") {
+			return true
+		}
+		x, ok1 := dec(a)
+		y, ok2 := dec(b)
+		return ok1 && ok2 && y == x+1
+	}
+	var parts []string
+	for i := 0; i < len(rs); {
+		j := i
+		for j+1 < len(rs) && succ(rs[j], rs[j+1]) {
+			j++
+		}
+		if j > i {
+			parts = append(parts, rs[i]+">"+rs[j])
+		} else {
+			parts = append(parts, rs[i])
+		}
+		i = j + 1
+	}
+	if len(parts) == 0 {
+		return "-"
+	}
+	return strings.Join(parts, ",")
+}
+
 // slotTags: the tags of all non-nil messages referenced from any slot (live or dead).
 func slotTags(r *replayerUnderTest, tags map[*sse.Message]int) (known map[int]bool, unknown bool, head, tail, count, n int) {
 	slots, head, tail, count := r.slots()
@@ -270,6 +315,25 @@ func runHistory(r *replayerUnderTest, ops []replayOp, slotReport bool, fl *final
 					runtime.SetFinalizer(got, func(*sse.Message) { fl.mark(tag) })
 				}
 				out = "P=" + showEventID(got.ID)
+			}
+		case 'N':
+			m := &sse.Message{}
+			m.AppendData("m" + strconv.Itoa(k))
+			before := m.String()
+			rs := make([]string, 0, op.delta)
+			for j := int64(0); j < op.delta; j++ {
+				got, err := r.put(m, op.topics)
+				if err != nil {
+					rs = append(rs, showPutErr(err))
+					continue
+				}
+				tags[got] = k
+				stored[k] = true
+				rs = append(rs, "P="+showEventID(got.ID))
+			}
+			out = "N=" + compressRuns(rs)
+			if m.String() != before {
+				out += "!CALLER-MESSAGE-MODIFIED"
 			}
 		case 'R':
 			w := &recWriter{tags: tags, failAt: op.failAt, flushFails: op.flushFails}
